@@ -255,12 +255,11 @@ Fixpoint absorb (st : list hnode * str) (t : hnode) {struct t} : list hnode * st
 Definition normalize (ts : list hnode) : list hnode := flush (fold_left absorb ts ([], [])).
 
 (* element names, option names, attribute names and texts of a tree *)
-Fixpoint tags_of (t : hnode) : list str :=
-  match t with El tag _ _ kids => tag :: flat_map tags_of kids | _ => [] end.
-Fixpoint optnames_of (t : hnode) : list str :=
-  match t with El _ opts _ kids => opts ++ flat_map optnames_of kids | _ => [] end.
-Fixpoint attrnames_of (t : hnode) : list str :=
-  match t with El _ _ attrs kids => map fst attrs ++ flat_map attrnames_of kids | _ => [] end.
+Fixpoint collect {X} (g : str -> list str -> list (str * str) -> list X) (t : hnode) : list X :=
+  match t with El tag opts attrs kids => g tag opts attrs ++ flat_map (collect g) kids | _ => [] end.
+Definition tags_of : hnode -> list str := collect (fun tag _ _ => [tag]).
+Definition optnames_of : hnode -> list str := collect (fun _ opts _ => opts).
+Definition attrnames_of : hnode -> list str := collect (fun _ _ attrs => map fst attrs).
 Fixpoint texts_of (t : hnode) : list str :=
   match t with El _ _ _ kids => flat_map texts_of kids | Txt s => [s] | Raw s => [s] end.
 
@@ -447,26 +446,27 @@ Section TreeView.
     El s_span [] (class_attr [s_object_key; key_type k]) [Txt (key_label k)]
     :: (if o_key_tooltip o then [tooltip_span (path_str cpath)] else []).
 
+  (* simple_value's value_repr: a string shorter than max_summary_len_for_str is shown through repr, a longer one as it is *)
+  Definition leaf_text (lk : lkind) (raw rep : str) : str :=
+    if is_str lk then (if (Z.of_nat (List.length raw) <? o_max_len o)%Z then rep else raw) else rep.
+
   (* HtmlTreeView._render: summary + content (simple_value / complex_value) *)
   Fixpoint tv (name : option key) (path : list key) (cl : option Z) (incl excl : option (list key)) (v : pv) {struct v} : hnode :=
     let content :=
       match v with
       | PLeaf lk _ cname raw rep _ =>
           El s_span [] (class_attr [s_simple_value; cname])
-             [Txt (if is_str lk then (if (Z.of_nat (List.length raw) <? o_max_len o)%Z then rep else raw) else rep)]
+             [Txt (leaf_text lk raw rep)]
       | PNode is_seq _ cname _ items =>
           let cl' := option_map (fun n => (n - 1)%Z) cl in
           let label := is_seq || o_label_keys o in
           let rendered :=
-            (fix go (l : list (key * pv)) : list (key * hnode) :=
-               match l with
-               | [] => []
-               | (k, c) :: r =>
-                   let cpath := path ++ [k] in
-                   (k, if label
-                       then El s_tr [] [] [El s_td [] [] (key_cell k cpath); El s_td [] [] [tv None cpath cl' None None c]]
-                       else tv (Some k) cpath cl' None None c) :: go r
-               end) items in
+            map (fun kc : key * pv =>
+                   let cpath := path ++ [fst kc] in
+                   (fst kc,
+                    if label
+                    then El s_tr [] [] [El s_td [] [] (key_cell (fst kc) cpath); El s_td [] [] [tv None cpath cl' None None (snd kc)]]
+                    else tv (Some (fst kc)) cpath cl' None None (snd kc))) items in
           let present := map fst items in
           let order0 := match incl with None => present | Some l => filter (fun k => key_mem k present) l end in
           let order := match excl with None => order0 | Some l => filter (fun k => negb (key_mem k l)) order0 end in
@@ -483,7 +483,24 @@ Section TreeView.
     else content.
 
   Definition tree_view (v : pv) : hnode := tv (o_name o) (o_root_path o) (o_collapse o) (o_include o) (o_exclude o) v.
+
+  (* which keys the options ask to show, and as what text: label-style keys (and all indices of a list / tuple) through
+     object_key, summary-style keys as the summary name of the child -- when the child has a summary at all *)
+  Definition key_shown_text (is_seq : bool) (k : key) (c : pv) : option str :=
+    if is_seq || o_label_keys o then Some (key_label k)
+    else if needs_summary (Some k) c then Some (name_text k) else None.
 End TreeView.
+
+(* the sub-value reached by following the keys of a path (a dict lookup at every level) *)
+Inductive sub_at : pv -> list key -> pv -> Prop :=
+| sub_here : forall v, sub_at v [] v
+| sub_item : forall sq tn cn fmt items k c p w,
+    assoc_key k items = Some c -> sub_at c p w -> sub_at (PNode sq tn cn fmt items) (k :: p) w.
+(* include_keys / exclude_keys apply to the immediate children of the rendered value *)
+Definition key_included (incl excl : option (list key)) (k : key) : bool :=
+  (match incl with None => true | Some l => key_mem k l end) && (match excl with None => true | Some l => negb (key_mem k l) end).
+Definition path_included (o : opts) (p : list key) : bool :=
+  match p with [] => true | k :: _ => key_included (o_include o) (o_exclude o) k end.
 
 (* ---------------------------------------------------------------------------------------------- *)
 (* 6. wire format
